@@ -190,6 +190,10 @@ def settings_ctx(spec):
             st.enter_context(settings.max_cg_iterations(int(spec["set_max_cg"])))
         if spec.get("set_nq") is not None:
             st.enter_context(settings.num_contour_quadrature(int(spec["set_nq"])))
+        if spec.get("precond"):
+            # make the operator's own preconditioner ACTIVE at small sizes (default threshold: 2000 rows) and inexact
+            st.enter_context(settings.min_preconditioning_size(1))
+            st.enter_context(settings.max_preconditioner_size(int(spec["precond"])))
         yield
 
 
@@ -377,6 +381,31 @@ def build_op(spec):
         lam = torch.stack([spectrum(fam, n, kappa, g) * scale for _ in range(B)]).reshape(*batch, n)
         op = O.DiagLinearOperator(lam)
         K = torch.diag_embed(lam)
+    elif kind == "lowrank_diag":
+        # AddedDiag(Root(W), Diag(d)): the class with a (pivoted-Cholesky / Woodbury) preconditioner
+        r = int(spec.get("rank", 3))
+        W = torch.randn(*batch, n, r, generator=g, dtype=F64)
+        d = (0.5 + torch.rand(*batch, n, generator=g, dtype=F64)) * scale
+        op = O.AddedDiagLinearOperator(O.RootLinearOperator(W), O.DiagLinearOperator(d))
+        K = W @ W.mT + torch.diag_embed(d)
+    elif kind == "blockdiag":
+        # dense operator holding a block-diagonal matrix whose blocks live on different scales: e_1 (and every vector
+        # supported on the first block) lies in a proper invariant subspace that only sees the small eigenvalues
+        a = max(n // 2, 1)
+        Ks = []
+        for _ in range(B):
+            k1 = build_spd("uniform", a, 2.0, 1.0, g)[0]
+            k2 = build_spd("uniform", n - a, 2.0, float(spec.get("sep", 400.0)), g)[0]
+            Ks.append(torch.block_diag(k1, k2))
+        K = torch.stack(Ks).reshape(*batch, n, n)
+        op = O.DenseLinearOperator(K)
+    elif kind == "krondiag":
+        a, b = spec["factors"]
+        assert a * b == n
+        Ka = torch.stack([build_spd("uniform", a, 5.0, 1.0, g)[0] for _ in range(B)]).reshape(*batch, a, a)
+        dd = torch.tensor([1.0] + [float(spec.get("sep", 200.0))] * (b - 1), dtype=F64).expand(*batch, b)
+        op = O.KroneckerProductLinearOperator(O.DenseLinearOperator(Ka), O.DiagLinearOperator(dd.clone()))
+        K = (Ka[..., :, None, :, None] * torch.diag_embed(dd)[..., None, :, None, :]).reshape(*batch, n, n)
     elif kind == "constdiag":
         c = (0.5 + torch.rand(*batch, 1, generator=g, dtype=F64)) * scale
         op = O.ConstantDiagLinearOperator(c, diag_shape=n)
@@ -397,6 +426,17 @@ def build_op(spec):
     if spec.get("data_batch") is not None:          # explicit batch shape of rhs (and lhs): more / fewer / singleton dims
         rb = tuple(spec["data_batch"])
     rhs = torch.randn(*rb, n, t, generator=g, dtype=F64)
+    if spec.get("rhs_kind") == "orth":
+        # an orthogonal n x n right-hand side: out = R Q gives out out^T = R R^T (the Gram matrix of the computed root)
+        assert t == n
+        rhs = torch.stack([rand_orth(n, g) for _ in range(prod(rb))]).reshape(*rb, n, n)
+    r0 = spec.get("rhs0")
+    if r0 == "e1":              # the column that seeds the Lanczos eigenvalue estimate is a coordinate vector
+        rhs[..., :, 0] = 0.0
+        rhs[..., 0, 0] = 1.0
+    elif r0 == "eig":           # ... or an eigenvector (of the smallest eigenvalue)
+        ev = torch.linalg.eigh(K)[1][..., :, 0]
+        rhs[..., :, 0] = ev if rb else ev.reshape(-1, n)[0]
     lhs = None
     if spec.get("lhs"):
         lb = tuple(spec["lhs_batch"]) if spec.get("lhs_batch") is not None else rb
